@@ -226,6 +226,10 @@ def step (st : St) (ws : List String) : St × String :=
     | some i =>
       let v := (st.vmodels.lookup (nat! k)).getD (Model.Vec.VState.init i.nv)
       match op, rest with
+      | "revals", ps =>
+        let i' := Inst.fresh 1 (parsePairs ps)
+        ({ st with insts := (nat! k, i') :: st.insts.filter (fun x => x.1 != nat! k),
+                   vmodels := (nat! k, Model.Vec.VState.init i'.nv) :: st.vmodels.filter (fun x => x.1 != nat! k) }, "ok")
       | "add", [n] =>
         match st.events.lookup (nat! n) with
         | none => (st, "unknown-event")
